@@ -398,13 +398,13 @@ impl Property for C16 {
     fn cases(&self, tier: Tier) -> u64 {
         Self::grid_size()
             + match tier {
-                Tier::Quick => 30_000,
+                Tier::Quick => 60_000,
                 Tier::Thorough => 1_500_000,
             }
     }
     fn min_nontrivial(&self, tier: Tier) -> u64 {
         match tier {
-            Tier::Quick => 8_000,
+            Tier::Quick => 16_000,
             Tier::Thorough => 300_000,
         }
     }
